@@ -272,8 +272,12 @@ func execCopy(c *CopyCase, st *Stats) *Violation {
 	root := &cnode{id: 0, vm: newRoot(c.Limit), twin: newRoot(c.Limit)}
 	nodes := []*cnode{root}
 	twinDump := map[int]string{}
+	var only map[int]bool // nil: every node
 	checkAll := func(when string) *Violation {
 		for _, n := range nodes {
+			if only != nil && !only[n.id] {
+				continue
+			}
 			dn := dumpOf(n.vm)
 			if eventLogOn {
 				ev("dump", n.id, hashStr(dn))
@@ -355,6 +359,24 @@ func execCopy(c *CopyCase, st *Stats) *Violation {
 			if v := interleaveOp(c, op, nodes, twinDump, st, when); v != nil {
 				return v
 			}
+		}
+		// After each operation the nodes it touched (and, for Copy, source and
+		// copy) are compared with their twins; every node is compared again at
+		// the end of the history - a leaked mutation stays visible - and every
+		// third operation.
+		only = map[int]bool{}
+		switch op.Kind {
+		case "copy":
+			only[op.Node], only[len(nodes)-1] = true, true
+		case "interleave":
+			for _, ni := range op.Nodes {
+				only[ni] = true
+			}
+		default:
+			only[op.Node] = true
+		}
+		if oi%3 == 2 || oi == len(c.Ops)-1 {
+			only = nil
 		}
 		if v := checkAll(when); v != nil {
 			return v
